@@ -39,6 +39,29 @@ def prad_ratio(m, ground, nth=24, nph=32):
     return float(np.sum(lin * wt[:, None]) * (2 * np.pi / nph) / (4 * np.pi))
 
 
+_DRV = [None]
+
+
+def _driver():
+    if _DRV[0] is None:
+        import common
+        _DRV[0] = common.Driver()
+    return _DRV[0]
+
+
+def model_prad_ratio(m, env=None, nth=24, nph=32):
+    """the same integral over the far field of the Lean model (tied to `compute_far_field` at 1e-9 by C10 / C11) for the
+    solved currents of `m`; `env='ideal'`: the same currents over a perfect ground"""
+    xs, ws = np.polynomial.legendre.leggauss(nth)
+    ct, wt = (xs + 1) / 2, ws / 2
+    th = np.degrees(np.arccos(ct))
+    ph = np.arange(nph) * 360.0 / nph
+    dirs = [(float(t), float(p)) for p in ph for t in th]
+    mod = farlib.model_far(_driver(), m, dirs, env)
+    lin = np.array([x['lin'][2] for x in mod]).reshape(nph, nth)
+    return float(np.sum(lin * wt[None, :]) * (2 * np.pi / nph) / (4 * np.pi))
+
+
 def in_domain(ant):
     """documented modelling rules: segment length lambda/200 .. lambda/10 and >= 8 radii"""
     lam = ant['lam']
@@ -184,8 +207,27 @@ def evaluate(case):
     identity = float(abs(psrc - pl - pz0) / app)
     tie['power_attr'] = float(abs(psrc - P) / app)
     pr = prad_ratio(m, ground) * P
-    return dict(dev=(P - pl - pr) / app, app=app, P=P, loads=pl, rad=pr, identity=identity, tie=tie,
-                cond=antgen.cond(m), lossy=env in ('real1', 'real2', 'radials'))
+    out = dict(dev=(P - pl - pr) / app, app=app, P=P, loads=pl, rad=pr, identity=identity, tie=tie,
+               cond=antgen.cond(m), lossy=env in ('real1', 'real2', 'radials'))
+    if out['lossy'] and out['dev'] < -0.015:
+        # what explains an excess over lossy ground: the far field of the very same currents over a perfect ground (model)
+        out['rad_model'] = model_prad_ratio(m) * P
+        out['rad_model_ideal'] = model_prad_ratio(m, 'ideal') * P
+    return out
+
+
+def lossy_excess_class(r):
+    """known-finding class of the lossy-ground clause: the currents are solved over a perfect ground, the far field uses
+    the reflection coefficients of the real ground.  A case is in the class when (a) with the far field of the *same
+    currents over a perfect ground* the balance holds at 1.5 %, (b) the reported real-ground field is the model's field
+    (1e-6 of the radiated power), (c) the model's real-ground field carries more power than its perfect-ground field —
+    i.e. the excess is entirely the difference between the two reflection laws, nothing else is off"""
+    if 'rad_model' not in r:
+        return False
+    a = abs(r['P'] - r['loads'] - r['rad_model_ideal']) <= 0.015 * r['app']
+    b = abs(r['rad'] - r['rad_model']) <= 1e-6 * max(abs(r['rad_model']), 1e-300)
+    c = r['rad_model'] > r['rad_model_ideal']
+    return a and b and c
 
 
 def judge(r):
@@ -205,6 +247,9 @@ def replay(rp):
         return 1
     r = evaluate(rp['case'])
     bad = judge(r)
+    if bad and lossy_excess_class(r):
+        print('replay: in the known-finding class lossy-ground-field-exceeds-perfect-ground-field:', bad)
+        bad = None
     if not bad and r['identity'] > 1e-9:
         bad = 'source power differs from load dissipation plus matrix power by %.3g' % r['identity']
     print('replay ->', bad or 'property holds', {k: r[k] for k in ('dev', 'identity', 'cond')})
@@ -214,6 +259,7 @@ def replay(rp):
 def run(ck):
     ck.proof_side()
     rng = ck.rng
+    _DRV[0] = ck.get_driver()
     n = 36 if ck.tier == 'quick' else 700
     dis, viol = [], []
     kf = json.load(open(os.path.join(ROOT, 'known_findings.json')))
@@ -250,6 +296,13 @@ def run(ck):
         if r['identity'] > 1e-9 or t.get('matrix', 0) > 1e-12 or t['rhs'] > 1e-12 or t['residual'] > 1e-9 or t['power_attr'] > 1e-12:
             dis.append(dict(case=case, why='bookkeeping: identity %.3g, tie %r' % (r['identity'], t)))
         bad = judge(r)
+        if bad and lossy_excess_class(r):
+            ck.count('lossy_excess_class')
+            fid = 'low-horizontal-wire-over-real-ground' if 'low-horizontal-wire-over-real-ground' in cls else 'lossy-ground-field-exceeds-perfect-ground-field'
+            ck.report_known(fid, '%s: %s (%s; with the far field of the same currents over a perfect ground the balance is %.3g)'
+                            % (fid, bad, case['ant']['family'], (r['P'] - r['loads'] - r['rad_model_ideal']) / r['app']))
+            continue
+        cls = [c for c in cls if c != 'low-horizontal-wire-over-real-ground']
         if cls:
             ck.count('in_known_finding_class')
             if bad:
